@@ -3,11 +3,15 @@ package main
 import (
 	"fmt"
 	"math/rand"
+	"os"
 	"strconv"
 	"sync"
 	"sync/atomic"
 	"time"
 
+	"github.com/tableauio/tableau"
+	"github.com/tableauio/tableau/format"
+	"github.com/tableauio/tableau/options"
 	"github.com/tableauio/tableau/verifhook"
 	"google.golang.org/protobuf/reflect/protoreflect"
 )
@@ -148,6 +152,15 @@ func init() {
 				{"ID", "ItemID"}, {"map<uint32, Reward>", "uint32|{refer:\"ItemConf.ID\"}"}, {"id", "item"}, {"1", "1"}}}}})
 			if err := w2.genProto(ro); err == nil {
 				_ = w2.genConf(ro)
+			}
+			// one generator asked for the same workbook several times: in one call (the path named twice, next to
+			// another book) and in a second call on the same generator
+			if variant&3 == 0 {
+				po := &options.ProtoOption{Input: &options.ProtoInputOption{ProtoPaths: []string{w2.Proto}, Formats: []format.Format{format.CSV}}, Output: &options.ProtoOutputOption{}}
+				gen := tableau.NewProtoGenerator("protoconf", w2.In, w2.Proto, options.Proto(po), options.Log(quietLog))
+				if e := gen.Generate("Item#ItemConf.csv", "Reward#RewardConf.csv", "Item#ItemConf.csv", "Item#ItemConf.csv"); e != nil && os.Getenv("VERIF_DEBUG") != "" { fmt.Fprintln(os.Stderr, "dup generate:", e) }
+				_ = gen.Generate("Item#ItemConf.csv")
+				_ = gen.Generate("Fruit#FruitConf.csv", "Base#FruitType.csv", "Fruit#FruitConf.csv")
 			}
 			done <- "returned"
 		}()
